@@ -823,7 +823,7 @@ class OpGen:
             pre = []
             if f.ship is not None and self.avoid_k1:
                 pre = self._untarget(w, self._subtree(f.ship))
-            return pre + [('set_single', f._vid, 'ship', 'ship', None if rnd.random() < 0.1 else tid('ship'))]
+            return pre + [('set_single', f._vid, 'ship', 'ship', None if rnd.random() < self.p.get('ship_none', 0.1) else tid('ship'))]
         if k == 'single':
             slot, kind = rnd.choice([('stance', 'stance'), ('effect_beacon', 'beacon'), ('character', 'character')])
             return [('set_single', f._vid, slot, kind, None if rnd.random() < 0.3 else tid(kind))]
